@@ -20,10 +20,10 @@ func init() {
 		"Static decision of the structural clauses of parse fidelity: (RX) language inclusion printer-model ⊆ parser pattern for every line shape of runtime/traceback.go, decided on the product automaton of regexp/syntax programs read from the type-checked source; (SM) the complete transition relation of scan extracted from SSA for every state and abstract configuration and compared, line kind by line kind, with the reference automaton, including which captured group feeds which goroutine field; SM-prefix/first/append: one indentation per dump, First only on the first goroutine, goroutines and calls only appended in order; (AL) no parsed value aliases the reusable read buffer; (PARSE) which captured text feeds which field in parseFunc, parseFile, Call.init, Func.Init and per token of parseArgs, and that atou cannot overflow; (FL) every byte read reaches the scanner exactly once (counts added even with an error, chunks concatenated in order); pointer-likeness is a function of the value (NM-isptr). Not decided: value-level equality of the parsed strings and numbers.",
 		"the printer model refs/printer_formats.json reflects runtime/traceback.go of go1.17..1.26", "regexp implements RE2 semantics as compiled by regexp/syntax")
 	p("C02", []RuleSel{
-		{"SM", []string{"SM-looking-clean", "SM-withhold", "SM-blank", "SM-done-remainder"}},
-		{"FL", []string{"FL-line-once", "FL-remainder", "FL-suffix-once", "FL-write-now", "FL-chunk-once", "FL-line-shape", "FL-err-after-data", "FL-fill-account", "FL-reader-fresh"}},
-	}, map[string]int{"FL-line-once": 4, "FL-remainder": 3, "FL-suffix-once": 3, "SM-looking-clean": 1, "SM-withhold": 5},
-		"Every line read is consumed by the scanner, written to the pass-through writer, or returned in the suffix — exactly one of them, in order — decided over all SSA paths of one iteration of ScanSnapshot's loop and of the code after it (FL-line-once, FL-remainder, FL-write-now), of readLine/readSlice/fill (each chunk delivered once, counts added, error after data) and of the CLI loop (FL-suffix-once: remainder re-fed first or flushed once). Over the extracted scanner automaton: no line is consumed on the way to 'looking' (SM-looking-clean), consumed lines belong to a dump for which a snapshot exists (SM-withhold), at most one blank separator is swallowed (SM-blank), and a consumed terminating line forces the post-loop capture of the read-ahead (SM-done-remainder). Not decided: byte-level cursor arithmetic beyond the shapes checked by FL-line-shape.",
+		{"SM", []string{"SM-looking-clean", "SM-withhold", "SM-blank", "SM-done-remainder", "SM-ref"}},
+		{"FL", []string{"FL-line-once", "FL-remainder", "FL-suffix-once", "FL-write-now", "FL-chunk-once", "FL-line-shape", "FL-err-after-data", "FL-fill-account", "FL-reader-fresh", "FL-unbuffered"}},
+	}, map[string]int{"FL-line-once": 4, "FL-remainder": 3, "FL-suffix-once": 3, "SM-looking-clean": 1, "SM-withhold": 5, "SM-ref": 19, "FL-unbuffered": 2},
+		"Every line read is consumed by the scanner, written to the pass-through writer, or returned in the suffix — exactly one of them, in order — decided over all SSA paths of one iteration of ScanSnapshot's loop and of the code after it (FL-line-once, FL-remainder, FL-write-now), of readLine/readSlice/fill (each chunk delivered once, counts added, error after data) and of the CLI loop (FL-suffix-once: remainder re-fed first or flushed once). Over the extracted scanner automaton: no line is consumed on the way to 'looking' (SM-looking-clean), consumed lines belong to a dump for which a snapshot exists (SM-withhold), at most one blank separator is swallowed (SM-blank), and a consumed terminating line forces the post-loop capture of the read-ahead (SM-done-remainder); which lines are consumed, and where a dump ends so that the remainder is handed back rather than streamed on, is the reference automaton's decision (SM-ref); the CLI's pass-through writer is stdout itself or colorable's stdout wrapper, never a filtering writer (FL-unbuffered). Not decided: byte-level cursor arithmetic beyond the shapes checked by FL-line-shape.",
 		"io.Writer/io.Reader implementations passed by the caller honour their contracts")
 	p("C03", []RuleSel{
 		{"SM", []string{"SM-panic", "SM-deref", "RX-groups", "SM-progress"}},
@@ -33,14 +33,15 @@ func init() {
 		{"EQ", []string{"EQ-key", "EQ-lift"}},
 		{"AG", []string{"AG-merge"}},
 		{"RB", []string{"RB-*"}},
-	}, map[string]int{"SM-panic": 19, "SM-deref": 19, "PN-panic": 4, "LP-loop": 10, "BN-neg": 40, "EQ-lift": 6, "RB-slice": 10, "RB-inv": 1, "RB-panic": 2, "RB-writers": 4},
-		"No reachable explicit panic, no out-of-range index or nil dereference in the scanner for any line sequence (typestate facts over the extracted automaton: SM-panic, SM-deref, RX-groups), every explicit panic site classified (PN), every index/slice operand built from arithmetic or a search result proved non-negative by an interval analysis with dominating guards (BN-neg) plus the listed upper-bound idioms (BN-idiom/array), every loop counted or matched against its structural termination argument (LP), progress of the scan and CLI loops (SM-progress, FL-suffix-once); the accesses merge makes to the other operand with the index of the left one are discharged by the named precondition that merge is only applied to similar operands, similarity implying equal lengths at every nesting level (AG-merge, EQ-lift, EQ-key), likewise Stack.less (LX-len); (RB) the cursors of the 16 KiB line reader: a relational abstract interpretation (octahedron domain: bounds on every ±1 combination of up to three of the cursor fields, their values at method entry and the loop variables; exact linear constraints with Fourier–Motzkin along loop-free segments; inferred type invariant 0 <= r <= w <= 16384, method summaries as entry/exit relations) proves every slice of the buffer in bounds for every chunking of the input and the 'full buffer' panic unreachable. Not decided: general upper bounds outside the reader and the listed idioms, linear time.",
+	}, map[string]int{"SM-panic": 19, "SM-deref": 19, "PN-panic": 4, "LP-loop": 10, "BN-neg": 40, "EQ-lift": 6, "RB-slice": 10, "RB-inv": 1, "RB-panic": 2, "RB-writers": 4, "BN-zero": 20, "BN-upper": 20},
+		"No reachable explicit panic, no out-of-range index or nil dereference in the scanner for any line sequence (typestate facts over the extracted automaton: SM-panic, SM-deref, RX-groups), every explicit panic site classified (PN), every index/slice operand built from arithmetic or a search result proved non-negative by an interval analysis with dominating guards (BN-neg) plus upper bounds where safety is not visible at the site: constant indices need a proven minimum length (BN-zero), look-ahead indices and slice bounds x[v+c] need v+c within the length, an index that runs over another value needs equal lengths or a contract resting on a rule discharged on this run (BN-upper), and the listed idioms (BN-idiom/array/const), every loop counted or matched against its structural termination argument (LP), progress of the scan and CLI loops (SM-progress, FL-suffix-once); the accesses merge makes to the other operand with the index of the left one are discharged by the named precondition that merge is only applied to similar operands, similarity implying equal lengths at every nesting level (AG-merge, EQ-lift, EQ-key), likewise Stack.less (LX-len); (RB) the cursors of the 16 KiB line reader: a relational abstract interpretation (octahedron domain: bounds on every ±1 combination of up to three of the cursor fields, their values at method entry and the loop variables; exact linear constraints with Fourier–Motzkin along loop-free segments; inferred type invariant 0 <= r <= w <= 16384, method summaries as entry/exit relations) proves every slice of the buffer in bounds for every chunking of the input and the 'full buffer' panic unreachable. Not decided: general upper bounds outside the reader and the listed idioms, linear time.",
 		"stdlib functions in the read-only table do not panic on any input (regexp, strconv, bytes, strings, net/url, go/parser, html/template)")
 	p("C04", []RuleSel{
 		{"AG", []string{"AG-*"}},
 		{"SM", []string{"SM-first"}},
-	}, map[string]int{"AG-once": 3, "AG-rekey": 2, "AG-merge": 1, "AG-first": 1, "AG-sorted": 1, "AG-collect": 1, "AG-back": 1, "AG-level": 1, "AG-fresh-key": 1},
-		"Every clause of the partition statement is decided over all SSA paths of one iteration of Aggregate's find-or-create loop (lookup loop unrolled), of the collect loop and of the code after it: per goroutine exactly one insertion of its id (append to the matched bucket, lookup ends at the match, or one new bucket with a copy of its signature); on a match with an unequal key the bucket is re-inserted under merge(key, member) and the old key deleted, merge returning a new object; ids pass through sort.Ints after the last append; First is OR-accumulated from the members and published unchanged; every map entry becomes exactly one Bucket; the result refers back to the receiver. Disjointness and exhaustiveness of the id lists follow by induction over the goroutines from exactly-one-insertion and reachable-under-one-key; the argument assumes that similar is an equivalence relation at the chosen level (C05, EQ rules).",
+		{"EQ", []string{"EQ-key", "EQ-lift", "EQ-sig-scalars"}},
+	}, map[string]int{"EQ-key": 9, "EQ-lift": 6, "AG-once": 3, "AG-rekey": 2, "AG-merge": 1, "AG-first": 1, "AG-sorted": 1, "AG-collect": 1, "AG-back": 1, "AG-level": 1, "AG-fresh-key": 1},
+		"Every clause of the partition statement is decided over all SSA paths of one iteration of Aggregate's find-or-create loop (lookup loop unrolled), of the collect loop and of the code after it: per goroutine exactly one insertion of its id (append to the matched bucket, lookup ends at the match, or one new bucket with a copy of its signature); on a match with an unequal key the bucket is re-inserted under merge(key, member) and the old key deleted, merge returning a new object; ids pass through sort.Ints after the last append; First is OR-accumulated from the members and published unchanged; every map entry becomes exactly one Bucket; the result refers back to the receiver. Disjointness and exhaustiveness of the id lists follow by induction over the goroutines from exactly-one-insertion and reachable-under-one-key; the argument needs similar to be an equivalence relation at the chosen level whose classes have one shape (equal lengths at every nesting level, otherwise merge indexes past the shorter side): EQ-key, EQ-lift, EQ-sig-scalars decide that on this run.",
 		"the Go map implements insertion/deletion during iteration as specified (an entry inserted during the range may or may not be visited; the lookup ends at the first match, so it is not)")
 	p("C05", []RuleSel{
 		{"EQ", []string{"EQ-key", "EQ-lift", "EQ-sig-scalars", "EQ-noread", "EQ-merge-class", "EF-fresh-merge"}},
@@ -101,9 +102,9 @@ func init() {
 		{"AUG", []string{"AUG-*"}},
 		{"FL", []string{"AUG-gate"}},
 		{"EF", []string{"EF-augment-only"}},
-		{"BN", []string{"PN-panic", "PN-implicit", "LP-loop", "BN-neg"}},
-	}, map[string]int{"AUG-words": 20, "AUG-decode": 12, "AUG-fmt": 2, "AUG-name": 1, "AUG-errors": 1, "EF-augment-only": 1},
-		"For every supported parameter kind the number of flattened words augmentCall consumes is compared with the number of words the runtime prints for that kind (bool/ints/floats/pointer/map/chan/func 1, string 2, slice 3, interface 2): the type-string shape each AST kind produces is pushed through augmentCall's dispatch by deciding its string tests on the abstract shape, over all paths of one loop iteration (AUG-words); each sized signed integer and each float is decoded through the type and bit width of the same name (AUG-decode); popFmt/popName render the value itself, '_' or '<nil>' and nothing else (AUG-fmt); a frame is augmented only with the declaration found at its line whose name is a component of the frame's function name, and only when locating it succeeded (AUG-name); augmentation runs iff the option is set, its error is ignored by the caller, nothing on the way panics explicitly and its loops terminate (AUG-gate, AUG-errors, PN, LP); the only snapshot field it writes is Args.Processed (EF-augment-only, points-to) — raw values never change. Not decided: that the rendered text equals the value for the kinds whose table entry is right (it is decoded by the named stdlib formatter).",
+		{"BN", []string{"PN-panic", "PN-implicit", "LP-loop", "BN-neg", "BN-zero", "BN-upper"}},
+	}, map[string]int{"AUG-words": 20, "AUG-decode": 12, "AUG-fmt": 2, "AUG-name": 1, "AUG-errors": 1, "EF-augment-only": 1, "AUG-typestr": 11, "AUG-load": 2},
+		"For every supported parameter kind the number of flattened words augmentCall consumes is compared with the number of words the runtime prints for that kind (bool/ints/floats/pointer/map/chan/func 1, string 2, slice 3, interface 2): the type-string shape each AST kind produces is pushed through augmentCall's dispatch by deciding its string tests on the abstract shape, over all paths of one loop iteration (AUG-words); each sized signed integer and each float is decoded through the type and bit width of the same name (AUG-decode); popFmt/popName render the value itself, '_' or '<nil>' and nothing else (AUG-fmt); a frame is augmented only with the declaration found at its line whose name is a component of the frame's function name, and only when locating it succeeded (AUG-name); augmentation runs iff the option is set, its error is ignored by the caller, nothing on the way panics explicitly and its loops terminate (AUG-gate, AUG-errors, PN, LP); the only snapshot field it writes is Args.Processed (EF-augment-only, points-to) — raw values never change. AUG-typestr: per syntax kind the type name fieldToType produces has the shape augmentCall's dispatch recognises (writer/reader agreement, every path of the type switch); AUG-load: a parsed file is remembered only after it was read and parsed without error, so frames of an unreadable or unparsable source stay unaugmented. Not decided: that the rendered text equals the value for the kinds whose table entry is right (it is decoded by the named stdlib formatter).",
 		"Go ABI word counts of the supported kinds as listed in the checker table; strconv/math format correctly")
 	p("C18", []RuleSel{
 		{"LOC", []string{"LOC-*"}},
@@ -117,20 +118,21 @@ func init() {
 		{"HT", []string{"HT-*"}},
 		{"BN", []string{"BN-*", "PN-panic", "PN-implicit"}},
 		{"EF", []string{"EF-tpl"}},
-	}, map[string]int{"HT-url": 3, "HT-html": 1, "HT-funcmap": 5, "HT-tpl": 3, "HT-complete": 3, "HT-gen": 1},
-		"HTML safety rests on a handful of typed-string conversions and on the contexts in which the template inserts data. HT-url: an abstract evaluation of the string expressions of html.go (constants, concatenation, constant-format Sprintf, QueryEscape, EscapedPath, phi = join, calls = join of returns, fixpoint) decides that every value a template function can return as trusted URL is empty, constant, begins with a fixed https://host/, file:/// or data: prefix, or is query-escaped; HT-html: trusted-markup conversions take only constants or HTMLEscapeString results; HT-funcmap: the FuncMap holds exactly the vetted producers and no escaper-changing name; HT-tpl: the shipped template is parsed and every action is located in its HTML context by a tokenizer over the text nodes: none inside script/style/on*/unquoted attributes, in href/src an action is the whole value or follows constant text fixing the scheme, html/urlquery/js are not used; HT-complete: the loops over calls, buckets and goroutines emit their row/heading unconditionally; HT-gen: the analysed constant is goroutines.tpl after the generator's whitespace rule; BN-neg/PN: the helper functions cannot panic on slice bounds (rendering succeeds).",
+	}, map[string]int{"HT-url": 3, "HT-html": 1, "HT-funcmap": 5, "HT-tpl": 3, "HT-complete": 3, "HT-gen": 1, "HT-escape": 3, "BN-zero": 20, "BN-upper": 20},
+		"HTML safety rests on a handful of typed-string conversions and on the contexts in which the template inserts data. HT-url: an abstract evaluation of the string expressions of html.go (constants, concatenation, constant-format Sprintf, QueryEscape, EscapedPath, phi = join, calls = join of returns, fixpoint) decides that every value a template function can return as trusted URL is empty, constant, begins with a fixed https://host/, file:/// or data: prefix, or is query-escaped; HT-html: trusted-markup conversions take only constants or HTMLEscapeString results; HT-funcmap: the FuncMap holds exactly the vetted producers and no escaper-changing name; HT-tpl: the shipped template is parsed and every action is located in its HTML context by a tokenizer over the text nodes: none inside script/style/on*/unquoted attributes, in href/src an action is the whole value or follows constant text fixing the scheme, html/urlquery/js are not used; HT-complete: the loops over calls, buckets and goroutines emit their row/heading unconditionally; HT-gen: the analysed constant is goroutines.tpl after the generator's whitespace rule; HT-escape: a may-taint analysis (raw = may contain unescaped dump text; cleaned only by net/url's escapers and number formatting; propagated through concatenation, Sprintf, substrings, conversions, phis and module calls) decides that every non-constant part of a URL returned by a template function passed through a URL escaper; BN-neg/BN-zero/BN-upper/PN: the helper functions cannot panic on slice bounds or indices (rendering succeeds).",
 		"html/template's contextual auto-escaping, including normalisation of template.URL values inside quoted attributes, is correct")
 	p("C16", []RuleSel{
 		{"NI", []string{"NI-*"}},
 		{"EF", []string{"EF-immut"}},
-	}, map[string]int{"NI-flow": 1, "NI-width": 3, "NI-split": 2, "NI-all": 2, "NI-header": 2},
-		"Colour independence is a non-interference property: palette strings (loads of Palette fields and everything concatenated or formatted from them) may flow only into string concatenation, %s operands of constant formats, returns and writers — never into a comparison, len, index, conversion or a width operand; the one documented exception is the header handed to the filter/match expressions (NI-flow, taint analysis over package internal). NI-width: the widths computed by calcBucketsLengths/calcGoroutinesLengths are the lengths of exactly the two expressions callLine pads with %-*s. NI-split/NI-all: per element both console writers compute the header once, apply filter and match to that very string with opposite polarity, and write header then stack for every element not skipped. NI-header: a header is count/id and state, then the sleep range iff non-empty, the lock marker iff locked, the creator iff known. Not decided: the exact wording.",
+		{"EQ", []string{"EQ-merge-show", "EQ-sig-scalars", "EF-fresh-merge"}},
+	}, map[string]int{"NI-flow": 1, "NI-width": 3, "NI-split": 2, "NI-all": 2, "NI-header": 2, "NI-creator": 1, "EQ-merge-show": 8},
+		"Colour independence is a non-interference property: palette strings (loads of Palette fields and everything concatenated or formatted from them) may flow only into string concatenation, %s operands of constant formats, returns and writers — never into a comparison, len, index, conversion or a width operand; the one documented exception is the header handed to the filter/match expressions (NI-flow, taint analysis over package internal). NI-width: the widths computed by calcBucketsLengths/calcGoroutinesLengths are the lengths of exactly the two expressions callLine pads with %-*s. NI-split/NI-all: per element both console writers compute the header once, apply filter and match to that very string with opposite polarity, and write header then stack for every element not skipped. NI-header: a header is count/id and state, then the sleep range iff non-empty, the lock marker iff locked, the creator iff known. NI-creator: the creator named in a header is the first frame of the creation stack, the element the HTML sibling shows. What a bucket's block shows (state, sleep range, lock, frames, the elided-frames marker) is the merged signature: the merge rules (EQ-merge-show, EQ-sig-scalars, EF-fresh-merge) decide that every such field, Elided included, is carried into it. Not decided: the exact wording.",
 		"fmt pads by rune count of the uncoloured operands")
 	p("C07", []RuleSel{
 		{"SM", []string{"SM-ref", "SM-progress", "SM-looking-clean", "SM-done-remainder"}},
-		{"FL", []string{"FL-remainder", "FL-suffix-once", "FL-line-once", "FL-reader-fresh"}},
-	}, map[string]int{"SM-ref": 19, "FL-remainder": 3, "FL-suffix-once": 3},
-		"The transition relation of scan is extracted from SSA (all 19 states × abstract configurations; every path) and compared with the reference automaton refs/scan_automaton.json for every assignment of the line-kind predicates (which line kinds start, continue, end or invalidate a dump); the exclusion facts used by the comparison are themselves verified on the regexp syntax trees. Together with FL-remainder (terminating line + read-ahead returned, no read after the loop), SM-done-remainder and FL-suffix-once (MultiReader(suffix, rest), suffix first) this decides delimitation and resumability at the level of line kinds. Not decided: that two scans of the same dump text give equal snapshots at value level (follows from C06's determinism rules).",
+		{"FL", []string{"FL-remainder", "FL-suffix-once", "FL-line-once", "FL-reader-fresh", "FL-fill-account", "FL-fill-err", "FL-err-after-data", "FL-chunk-once", "FL-line-shape"}},
+	}, map[string]int{"SM-ref": 19, "FL-remainder": 3, "FL-suffix-once": 3, "FL-fill-account": 1, "FL-chunk-once": 1},
+		"The transition relation of scan is extracted from SSA (all 19 states × abstract configurations; every path) and compared with the reference automaton refs/scan_automaton.json for every assignment of the line-kind predicates (which line kinds start, continue, end or invalidate a dump); the exclusion facts used by the comparison are themselves verified on the regexp syntax trees. Together with FL-remainder (terminating line + read-ahead returned, no read after the loop), SM-done-remainder and FL-suffix-once (MultiReader(suffix, rest), suffix first) this decides delimitation and resumability at the level of line kinds; every byte the underlying reader delivers reaches the scanner as part of exactly one line, also when it arrives together with the end-of-stream error (FL-fill-account, FL-fill-err, FL-err-after-data, FL-chunk-once, FL-line-shape), so no dump of the stream is skipped. Not decided: that two scans of the same dump text give equal snapshots at value level (follows from C06's determinism rules).",
 		"the reference automaton is the documented line grammar")
 	p("C08", []RuleSel{
 		{"SM", []string{"SM-ref", "SM-raceidx", "SM-deref", "SM-first", "SM-append", "RX-groups"}},
@@ -140,7 +142,7 @@ func init() {
 		"Race half of the scanner automaton compared with the reference (one goroutine appended per operation header with id/address/kind taken from the right capture groups, creation frames appended to the goroutine whose id matched, unknown id ⇒ error, footer ends the report), index facts for goroutineIndex (SM-raceidx, SM-deref), language inclusion of tsan's Go report line shapes in the three race patterns (RX-race), IsRace reads the first goroutine's address (RACE-israce). Not decided: numeric value of addresses; IsRace for address 0.",
 		"refs/printer_formats.json reflects tsan_report.cpp (Go branch)")
 	p("C09", []RuleSel{
-		{"FL", []string{"FL-chunk-once", "FL-line-shape", "FL-err-after-data", "FL-fill-account", "FL-fill-slide", "FL-fill-guard", "FL-fill-err", "FL-reader-fresh", "FL-fill-retry", "FL-err-prec"}},
+		{"FL", []string{"FL-chunk-once", "FL-line-shape", "FL-err-after-data", "FL-fill-account", "FL-fill-slide", "FL-fill-guard", "FL-fill-err", "FL-reader-fresh", "FL-fill-retry", "FL-err-prec", "FL-fill-once"}},
 		{"AL", []string{"AL-*"}},
 		{"SM", []string{"SM-prefix"}},
 		{"RB", []string{"RB-*"}},
@@ -149,11 +151,11 @@ func init() {
 		"io.Reader contract: 0 <= n <= len(p)")
 	p("C10", []RuleSel{
 		{"SM", []string{"SM-cut-forward", "SM-cur-only", "SM-append", "SM-panic", "SM-deref"}},
-		{"FL", []string{"FL-err-prec", "FL-snapshot", "FL-fill-account", "FL-fill-err", "FL-err-after-data"}},
-		{"BN", []string{"WEB-trunc", "BN-neg"}},
+		{"FL", []string{"FL-err-prec", "FL-snapshot", "FL-fill-account", "FL-fill-err", "FL-err-after-data", "NM-gate", "LOC-gate", "AUG-gate"}},
+		{"BN", []string{"WEB-trunc", "BN-neg", "BN-idiom", "BN-zero", "BN-upper"}},
 		{"LOC", []string{"LOC-all"}},
 	}, map[string]int{"FL-err-prec": 2, "FL-snapshot": 1, "SM-cur-only": 5, "SM-cut-forward": 1},
-		"A reader failure is returned as exactly that error unless it is nil/EOF (FL-err-prec over all paths of the scan loop); a snapshot is returned iff a goroutine header was seen (FL-snapshot); data delivered together with an error is not lost and the error is reported after it (FL-fill-account, FL-fill-err, FL-err-after-data); goroutines before the cut are never written again (SM-cur-only, SM-append over the extracted automaton, whose fixpoint is closed under end-of-stream in every configuration: SM-panic, SM-deref); an unterminated last line is not forwarded when it may be the head of a dump line (SM-cut-forward). Not decided: value-level equality of the earlier goroutines with the uncut parse.",
+		"A reader failure is returned as exactly that error unless it is nil/EOF (FL-err-prec over all paths of the scan loop); a snapshot is returned iff a goroutine header was seen (FL-snapshot); data delivered together with an error is not lost and the error is reported after it (FL-fill-account, FL-fill-err, FL-err-after-data); goroutines before the cut are never written again (SM-cur-only, SM-append over the extracted automaton, whose fixpoint is closed under end-of-stream in every configuration: SM-panic, SM-deref); an unterminated last line is not forwarded when it may be the head of a dump line (SM-cut-forward); naming, path guessing and source augmentation of what was parsed run whenever their option is set, whatever the error (NM-gate, LOC-gate, AUG-gate), so the earlier goroutines get the same post-processing as in the uncut parse; no constant index or computed bound on the way can fail on the shapes a cut line produces (BN-neg, BN-idiom, BN-zero, BN-upper). Not decided: value-level equality of the earlier goroutines with the uncut parse.",
 		"")
 	p("C11", []RuleSel{
 		{"FL", []string{"FL-fill-once", "FL-fill-guard", "FL-write-now", "FL-remainder", "FL-unbuffered", "FL-suffix-once"}},
